@@ -54,6 +54,10 @@ StrFull      == {"a", "b", ".", "-", "]", "^"}
 StrSmall     == {"a", ".", "-", "]"}
 StrTiny      == {"a", ".", "-"}
 AlphaSh      == {"a", ".", "*", "[", "]", "-"}
+\* characters that need a backslash INSIDE double quotes (XCU 2.2.3), quoted
+AlphaDq      == {"a", "*"}
+LitDq        == {"\\", "$", "\"", "`", "*"}
+StrDq        == {"a", "\\", "$", "\"", "`"}
 LitSh        == {"*", "[", "-"}
 StrClass     == {"a", "A", "1", "-", " ", "]"}
 StrWide      == {"a", "b", ".", "-", "]", "^", "[", "\\", "*", "!"}
